@@ -48,6 +48,27 @@ type psWrap struct {
 	// lifetime, i.e. in the middle of identify's address update: a scheduling point the
 	// harness uses to let a disconnect happen exactly there.
 	onConnectedAdd func()
+
+	// when the lifetimes of a peer's addresses were last written (coverage: has the lifetime run out,
+	// has a collection of the address book come by since)
+	addrWrite map[peer.ID]time.Time
+}
+
+func (w *psWrap) noteAddrWrite(p peer.ID) {
+	w.mu.Lock()
+	if w.addrWrite == nil {
+		w.addrWrite = map[peer.ID]time.Time{}
+	}
+	w.addrWrite[p] = time.Now()
+	w.touched[p] = struct{}{}
+	w.mu.Unlock()
+}
+
+func (w *psWrap) lastAddrWrite(p peer.ID) (time.Time, bool) {
+	w.mu.Lock()
+	defer w.mu.Unlock()
+	t, ok := w.addrWrite[p]
+	return t, ok
 }
 
 func (w *psWrap) arm(f func()) {
@@ -69,11 +90,11 @@ func (w *psWrap) touch(p peer.ID) {
 }
 
 func (w *psWrap) AddAddr(p peer.ID, a ma.Multiaddr, ttl time.Duration) {
-	w.touch(p)
+	w.noteAddrWrite(p)
 	w.Peerstore.AddAddr(p, a, ttl)
 }
 func (w *psWrap) AddAddrs(p peer.ID, a []ma.Multiaddr, ttl time.Duration) {
-	w.touch(p)
+	w.noteAddrWrite(p)
 	if ttl >= peerstore.ConnectedAddrTTL {
 		w.mu.Lock()
 		f := w.onConnectedAdd
@@ -86,15 +107,15 @@ func (w *psWrap) AddAddrs(p peer.ID, a []ma.Multiaddr, ttl time.Duration) {
 	w.Peerstore.AddAddrs(p, a, ttl)
 }
 func (w *psWrap) SetAddr(p peer.ID, a ma.Multiaddr, ttl time.Duration) {
-	w.touch(p)
+	w.noteAddrWrite(p)
 	w.Peerstore.SetAddr(p, a, ttl)
 }
 func (w *psWrap) SetAddrs(p peer.ID, a []ma.Multiaddr, ttl time.Duration) {
-	w.touch(p)
+	w.noteAddrWrite(p)
 	w.Peerstore.SetAddrs(p, a, ttl)
 }
 func (w *psWrap) UpdateAddrs(p peer.ID, o, n time.Duration) {
-	w.touch(p)
+	w.noteAddrWrite(p)
 	w.Peerstore.UpdateAddrs(p, o, n)
 }
 func (w *psWrap) ClearAddrs(p peer.ID) { w.touch(p); w.Peerstore.ClearAddrs(p) }
